@@ -65,6 +65,23 @@ def handle (j : Json) : Except String Json := do
   let rbJ := Json.mkObj (pqsJson rb.pqs ++
     [("v2", jopt rb.pathAndQuery), ("host", jopt rb.host),
      ("headers", Json.arr (rb.headers.map fun h => Json.arr #[jhex h.1, jhex h.2]).toArray)])
+  -- rebuild of the request for u2 restored WITHOUT path_and_query_v2 (the model starts from `original`), under the same
+  -- configuration and under `cfg2` (absent = the same); the rule of u under cfg2 against the rebuilt request
+  let cfg2 ← match j.getObjVal? "cfg2" with
+    | .ok Json.null => pure cfg
+    | .ok c2 => parseCfg c2
+    | .error _ => pure cfg
+  let reqA : Req := { Req.fromConfig cfg u2 host with headers := headers }
+  let reqN : Req := { reqA with pathAndQuery := none }
+  let reqJ (r : Req) : Json := Json.mkObj (pqsJson r.pqs ++
+    [("v2", jopt r.pathAndQuery), ("host", jopt r.host),
+     ("headers", Json.arr (r.headers.map fun h => Json.arr #[jhex h.1, jhex h.2]).toArray)])
+  let rbnOther := Req.rebuild cfg2 reqN
+  let mRb := matchesKey (ruleKey cfg2 u) rbnOther.pqs.key
+  let locRb : Json := if mRb then (if target.isEmpty then Json.null else jhex (location target rbnOther.pqs.skipped)) else Json.null
+  let rb2 := Json.mkObj
+    [("same", reqJ (Req.rebuild cfg reqN)), ("other", reqJ rbnOther), ("other_v2", reqJ (Req.rebuild cfg2 reqA)),
+     ("m", toJson mRb), ("loc", locRb)]
   let ext := Json.mkObj
     [("parse", Json.arr ((parseQuery u).map fun kv => Json.arr #[jhex kv.1, jhex kv.2]).toArray),
      ("pq", match pqParse u with
@@ -75,7 +92,7 @@ def handle (j : Json) : Except String Json := do
   let m := Json.mkObj
     [("r1", Json.mkObj (pqsJson r1)), ("r2", Json.mkObj (pqsJson r2)), ("rule", jhex rk),
      ("m11", toJson m11), ("m12", toJson m12), ("loc", loc), ("tgt", tgtJ),
-     ("wf", toJson (WFurl cfg u)), ("rb", rbJ), ("ext", ext)]
+     ("wf", toJson (WFurl cfg u)), ("rb", rbJ), ("rb2", rb2), ("ext", ext)]
   return Json.mkObj [("m", m)]
 
 end C09Drv
